@@ -59,7 +59,7 @@ def rdCOp : Rd (Option COp) := do
   let w ← Rd.word
   match w with
   | "" => return none
-  | "px" | "pi" | "pr" => do let x ← Rd.int; let y ← Rd.int; let e ← rdElement; return some (.px x y e)
+  | "px" | "pi" | "pr" | "pe" => do let x ← Rd.int; let y ← Rd.int; let e ← rdElement; return some (.px x y e)
   | "fl" => do let ox ← Rd.int; let oy ← Rd.int; let w ← Rd.int; let h ← Rd.int; let e ← rdElement; return some (.fl ox oy w h e)
   | "cp" | "cc" => return some .cp
   | "ba" => return some .ba
